@@ -4,6 +4,7 @@ import (
 	"fmt"
 	"go/token"
 	"go/types"
+	"sort"
 	"strings"
 
 	"golang.org/x/tools/go/ssa"
@@ -21,6 +22,20 @@ func init() {
 }
 
 func runC07(c *Ctx, r *Run) {
+	// the header filter separates sessions by the tag only: a tag that misses part of what distinguishes two sessions
+	// (message, key material) lets the other session's message into the queues, where - first copy wins - it displaces
+	// the genuine one whenever it arrives first (rule shared with C09)
+	r.Rule("DEP-5", "tag completeness: everything that distinguishes two sessions is written into the hash before the tag is taken")
+	{
+		sub := NewRun("tmp", r.Tier)
+		runC09(c, sub)
+		for _, o := range sub.Obs {
+			if o.Rule == "DEP-5" {
+				r.Check("DEP-5", o.Key, o.Pos, o.Held, o.Desc, o.Detail)
+			}
+		}
+		r.Require("DEP-5", 6)
+	}
 	r.Rule("OB-Q1", "store-then-process: accepted messages are stored before the early return on a round mismatch; entering a round replays that round's queues before recursing")
 	r.Rule("OB-Q2", "first message wins: duplicate() filters, store() never overwrites, stale rounds are rejected")
 	r.Rule("OB-Q4", "every message is queued under its own RoundNumber and From (both handlers)")
@@ -626,6 +641,21 @@ func checkFirstCopyWins(c *Ctx, r *Run, rule string) {
 			}
 		}
 	}
+	// the filter and the writer agree on WHICH queue a message belongs to: the tests that separate the broadcast queue
+	// from the point-to-point queue are the same in `duplicate` and in `store`. Otherwise a message is looked for in
+	// one queue and filed in the other: its second copy is processed although the first one is the one vouched for.
+	if dup != nil {
+		sStore, okS := queueChoiceConds(c, store)
+		sDup, okD := queueChoiceConds(c, dup)
+		if okS && okD {
+			a, b := strings.Join(sStore, " ; "), strings.Join(sDup, " ; ")
+			r.Check(rule, "pkg/protocol.(*MultiHandler).duplicate|same-queue-as-store", c.Pos(dup.Pos()), a == b,
+				"duplicate looks a message up in the queue store files it in (both choose by: "+a+")",
+				"duplicate chooses the queue by ["+b+"], store by ["+a+"]: for the messages on which the two disagree the first-copy-wins filter looks into the wrong queue and lets a second copy through")
+		} else {
+			r.Unresolved(rule, "queue choice in store/duplicate")
+		}
+	}
 	r.Check(rule, "pkg/protocol.(*MultiHandler).store|never-overwrites", c.Pos(store.Pos()), okNo, "store writes a slot only while it is empty (the first message wins)", "store overwrites an occupied slot: a duplicate or a late equivocation replaces the message already processed")
 }
 
@@ -636,4 +666,76 @@ func containsPrefix(fields []string, pre string) bool {
 		}
 	}
 	return false
+}
+
+// queueChoiceConds: the branch conditions (canonical keys) that decide, inside fn or the helper of the handler it calls
+// for it, between touching the broadcast queue and touching the point-to-point queue: the tests on which the two
+// accesses depend with different outcomes (a test both depend on the same way - e.g. an early return - separates nothing).
+func queueChoiceConds(c *Ctx, fn *ssa.Function) ([]string, bool) {
+	for _, f := range regionOf(fn) {
+		var bq, mq []*ssa.BasicBlock
+		allInstrs(f, func(in ssa.Instruction) {
+			fa, ok := in.(*ssa.FieldAddr)
+			if !ok {
+				return
+			}
+			switch fieldName(fa.X.Type(), fa.Field) {
+			case "broadcast":
+				bq = append(bq, fa.Block())
+			case "messages":
+				mq = append(mq, fa.Block())
+			}
+		})
+		if len(bq) == 0 || len(mq) == 0 {
+			continue
+		}
+		deps := func(bs []*ssa.BasicBlock) map[*ssa.If]int {
+			out := map[*ssa.If]int{}
+			for _, B := range bs {
+				for _, p := range f.Blocks {
+					iff, ok := p.Instrs[len(p.Instrs)-1].(*ssa.If)
+					if !ok || p == B {
+						continue
+					}
+					r0 := p.Succs[0] == B || blockReaches(p.Succs[0], B)
+					r1 := p.Succs[1] == B || blockReaches(p.Succs[1], B)
+					switch {
+					case r0 && !r1:
+						out[iff] |= 1
+					case r1 && !r0:
+						out[iff] |= 2
+					}
+				}
+			}
+			return out
+		}
+		db, dm := deps(bq), deps(mq)
+		set := map[string]bool{}
+		add := func(iff *ssa.If) {
+			kind, atoms := flattenBool(iff.Cond, 0)
+			if kind == "" || len(atoms) < 2 {
+				atoms = []ssa.Value{iff.Cond}
+			}
+			for _, at := range atoms {
+				set[deciderOf(at)+"("+strings.Join(guardFields(f, at), ",")+")"] = true
+			}
+		}
+		for iff, eb := range db {
+			if em, both := dm[iff]; !both || em != eb {
+				add(iff)
+			}
+		}
+		for iff, em := range dm {
+			if eb, both := db[iff]; !both || em != eb {
+				add(iff)
+			}
+		}
+		var out []string
+		for k := range set {
+			out = append(out, k)
+		}
+		sort.Strings(out)
+		return out, true
+	}
+	return nil, false
 }
